@@ -12,11 +12,12 @@ func init() {
 		ID:         "C10",
 		Level:      "other",
 		Technique:  "CFG must-pass/dominance rules on initialization checks, constant-bound rule on the required mask, sibling-slot rule on oneof coders (static)",
-		Explain:    "Decides structural necessary conditions of exact required-field checking: (1) the three fast decode loops can report `initialized` only through the popcount(requiredMask) == numRequiredFields test and set requiredMask bits only after a successful field decode; the required-field counter saturates strictly above 64 so that >64 required fields can never look complete; (2) every success exit of the central Marshal/Unmarshal functions (binary, JSON, text) is preceded by the AllowPartial test, the fast-path initialized flag, or a CheckInitialized call; (3) checkInitializedPointer skips a field only through an enumerated set of legitimate skip edges (absent, nil, no isInit, lazy-and-checked); (4) a lazy field that the validator reported uninitialized under CheckRequired is never left unexpanded (the init check trusts unexpanded lazy fields); (5) every oneof member whose element coder has isInit gets a non-nil isInit slot, because the decode loops consult the decoded member's slot. The validator's required-field presence test accepts each validation type exactly on the wire type it was assigned for (R-VALIDATE-WIRETYPE), so a record that Unmarshal keeps as unknown never marks a required field present. In the reflection-based algorithms every condition or switch that tests MessageKind also covers GroupKind (R-MSG-GROUP-PAIR), so required fields inside group-encoded submessages are checked like those inside messages.",
+		Explain:    "Decides structural necessary conditions of exact required-field checking: (1) the three fast decode loops can report `initialized` only through the popcount(requiredMask) == numRequiredFields test and set requiredMask bits only after a successful field decode; the required-field counter saturates strictly above 64 so that >64 required fields can never look complete; (2) every success exit of the central Marshal/Unmarshal functions (binary, JSON, text) is preceded by the AllowPartial test, the fast-path initialized flag, or a CheckInitialized call; (3) checkInitializedPointer skips a field only through an enumerated set of legitimate skip edges (absent, nil, no isInit, lazy-and-checked); (4) a lazy field that the validator reported uninitialized under CheckRequired is never left unexpanded (the init check trusts unexpanded lazy fields); (5) every oneof member whose element coder has isInit gets a non-nil isInit slot, because the decode loops consult the decoded member's slot. The validator's required-field presence test accepts each validation type exactly on the wire type it was assigned for (R-VALIDATE-WIRETYPE), so a record that Unmarshal keeps as unknown never marks a required field present. In the reflection-based algorithms every condition or switch that tests MessageKind also covers GroupKind (R-MSG-GROUP-PAIR), so required fields inside group-encoded submessages are checked like those inside messages. The fast path's initialized flag is trusted only when the destination was reset by the call (R-INIT-FLAG-SCOPE): with Merge the whole resulting message is checked.",
 		NotCovered: "exact iff on arbitrary message trees; the needsInitCheck memoisation across cyclic message graphs (observed defect N2, see DESIGN.md §5) is outside these rules.",
 		Quick:      all("./proto", "./internal/impl", "./encoding/protojson", "./encoding/prototext"),
 		Thorough:   all("./..."),
 		Run: func(c *Ctx) {
+			c.ruleInitFlagScope("R-INIT-FLAG-SCOPE")
 			c.ruleMsgGroupPair("R-MSG-GROUP-PAIR", []string{"proto", "encoding/protojson", "encoding/prototext", "types/dynamicpb"}, 5)
 			c.ruleValidateWireType("R-VALIDATE-WIRETYPE")
 			c.ruleRequiredMask("R-REQUIRED-MASK")
@@ -686,5 +687,72 @@ func (c *Ctx) ruleMemoCycle(rule string) {
 			}
 			R.OK(rule, construct, P.Pos(s.call), "definitive answer")
 		}
+	}
+}
+
+// R-INIT-FLAG-SCOPE: the fast path's UnmarshalInitialized flag says that the
+// *parsed input* had all required fields. It vouches for the whole destination
+// message only if the destination was reset by this call; with
+// UnmarshalOptions.Merge the destination may already hold a partial
+// submessage, so the flag must not be trusted and checkInitialized must run.
+func (c *Ctx) ruleInitFlagScope(rule string) {
+	R, P := c.R, c.P
+	R.Rule(rule, "in proto.UnmarshalOptions.unmarshal every test of the UnmarshalInitialized flag that lets the function return success is conjoined with the negation of the caller's Merge option (captured before the option is overwritten)", 1)
+	fi := c.need(rule, "proto.UnmarshalOptions.unmarshal")
+	if fi == nil {
+		return
+	}
+	info := fi.Info()
+	defs := localDefs(fi.Decl.Body, info)
+	isMergeCapture := func(e ast.Expr) bool {
+		e = unparen(e)
+		if _, f, ok := fieldSel(info, e); ok && f == "Merge" {
+			return true
+		}
+		if id, ok := e.(*ast.Ident); ok {
+			for _, d := range defs[info.Uses[id]] {
+				if _, f, ok := fieldSel(info, unparen(d.rhs)); ok && f == "Merge" {
+					return true
+				}
+			}
+		}
+		return false
+	}
+	pm := parentMap(fi.Decl.Body)
+	n := 0
+	walk(fi.Decl.Body, func(x ast.Node) bool {
+		be, ok := x.(*ast.BinaryExpr)
+		if !ok || be.Op != token.NEQ {
+			return true
+		}
+		and, ok := unparen(be.X).(*ast.BinaryExpr)
+		if !ok || and.Op != token.AND || qualObj(objOf(info, and.Y)) != "runtime/protoiface.UnmarshalInitialized" {
+			return true
+		}
+		n++
+		// climb through parentheses and && to collect the conjuncts
+		good := false
+		var cur ast.Node = be
+		for p := pm[cur]; p != nil; cur, p = p, pm[p] {
+			switch q := p.(type) {
+			case *ast.ParenExpr:
+				continue
+			case *ast.BinaryExpr:
+				if q.Op == token.LAND {
+					for _, side := range []ast.Expr{q.X, q.Y} {
+						if un, ok := unparen(side).(*ast.UnaryExpr); ok && un.Op == token.NOT && isMergeCapture(un.X) {
+							good = true
+						}
+					}
+					continue
+				}
+			}
+			break
+		}
+		R.Check(good, rule, fi.Key+" flag test#"+itoa(n), P.Pos(be), "flag trusted only when the message was reset (!Merge)", "the UnmarshalInitialized flag, which describes the parsed input only, is trusted although the caller asked to merge into an existing message: a destination that already holds a submessage with unset required fields is reported as complete (Unmarshal returns nil, CheckInitialized of the result fails)")
+		return true
+	})
+	if n == 0 {
+		R.Unk(rule, fi.Key, P.Pos(fi.Decl), "no test of the UnmarshalInitialized flag found")
 	}
 }
